@@ -17,7 +17,7 @@ pub fn def02() -> PropDef {
     PropDef {
         info: PropInfo {
             id: "C02",
-            rule: "layouts: VM struct (metadata VM, raw VM without metadata buffer, no-data VM without packet either), packet of 0-64 bytes and metadata buffer absent or 8-64 bytes, each placed start- or end-against a PROT_NONE page; 0-3 registered ranges of 1-32 bytes inside a canary-filled arena, some separated by holes of only 1-7 bytes; in a third of the layouts one more registered range covers all the others (extended by 0-3 bytes on either side) and is registered last, first, second, or with the whole order reversed; in a quarter of the layouts a registered range encloses the packet (0-15 bytes more below, 0-7 above). probes: one access instruction {ldx, st, stx, xadd, ldabs, ldind} x width {1,2,4,8} whose effective address is a region boundary (start or end of packet / metadata / each range / the stack) plus a delta in [-9,+9], or 0, 1, u64::MAX-k, a base+offset sum that wraps past 2^64, or a far address; base value and displacement are split randomly between register and 16-bit offset (imm+src for ldind); a quarter of the probes first perform a narrower access through the same register and offset; a quarter first perform an in-bounds access of the same offset and width and then redefine the base register (lddw, mov, add, stack reload, result of a helper call, ldabs); in a quarter of the layouts the metadata buffer starts 1-7 bytes after the end of the packet. Oracle (computed from the real addresses inside the child): allowed <=> all bytes inside exactly one region (and naturally aligned for xadd); allowed => Ok with the exact loaded value / exactly the stored bytes changed; refused => Err (never a panic or signal) and no byte of packet, metadata, arena or canaries changed. The thorough tier additionally enumerates every (region boundary, delta, kind, width) combination for fixed layouts. Non-trivial = effective address within 9 bytes of a region boundary, or wrapped; distinct by hash of layout+probe.",
+            rule: "layouts: VM struct (metadata VM, raw VM without metadata buffer, no-data VM without packet either), packet of 0-64 bytes and metadata buffer absent or 8-64 bytes, each placed start- or end-against a PROT_NONE page; 0-3 registered ranges of 1-32 bytes inside a canary-filled arena, some separated by holes of only 1-7 bytes; in a third of the layouts one more registered range covers all the others (extended by 0-3 bytes on either side) and is registered last, first, second, or with the whole order reversed; in a quarter of the layouts a registered range encloses the packet (0-15 bytes more below, 0-7 above). probes: one access instruction {ldx, st, stx, xadd, ldabs, ldind} x width {1,2,4,8} whose effective address is a region boundary (start or end of packet / metadata / each range / the stack) plus a delta in [-9,+9], or 0, 1, u64::MAX-k, a base+offset sum that wraps past 2^64, or a far address; base value and displacement are split randomly between register and 16-bit offset (imm+src for ldind); a quarter of the probes first perform a narrower access through the same register and offset; a quarter first perform an in-bounds access of the same offset and width and then redefine the base register (lddw, mov, add, stack reload, result of a helper call, ldabs); one in eight is loaded under an accept-all verifier and moves r10 by -128..127 just before the access (the stack region does not move with r10); in a quarter of the layouts the metadata buffer starts 1-7 bytes after the end of the packet. Oracle (computed from the real addresses inside the child): allowed <=> all bytes inside exactly one region (and naturally aligned for xadd); allowed => Ok with the exact loaded value / exactly the stored bytes changed; refused => Err (never a panic or signal) and no byte of packet, metadata, arena or canaries changed. The thorough tier additionally enumerates every (region boundary, delta, kind, width) combination for fixed layouts. Non-trivial = effective address within 9 bytes of a region boundary, or wrapped; distinct by hash of layout+probe.",
             assumptions: &["the interpreter's stack is reached through r10-relative probes (its absolute address is unknown); loads from it only have to succeed", "registered ranges never touch or partially overlap each other or the other regions (holes of 1-7 bytes between two ranges, one range that wholly contains the others and one that wholly contains the packet are generated on purpose): an access inside the union of two partially overlapping ranges but inside neither is left undecided by the statement"],
         },
         run: run02,
@@ -107,6 +107,10 @@ pub struct Probe {
     /// difference, 4 reload from a stack slot, 5 the result of a helper call (r0), 6 ldabsb (r0 =
     /// first packet byte: the probe then aims at that small address + offset)
     rebase: u8,
+    /// non-zero: the program is loaded under a verifier that accepts everything and adds this
+    /// amount to r10 just before the probing access (whose address was computed from the
+    /// original r10): the stack the VM confines accesses to does not move with r10
+    move_r10: i8,
 }
 
 fn layout(with_ranges: bool) -> impl Strategy<Value = Layout> {
@@ -135,8 +139,8 @@ fn probe(nregions: u8, cranelift: bool) -> impl Strategy<Value = Probe> {
         1 => prop_oneof![Just(0u64), Just(1u64), (0u64..16).prop_map(|k| u64::MAX - k), any::<u64>().prop_map(|x| x | (1 << 62)), Just(4096u64), Just(8u64)].prop_map(Target::Abs),
         1 => (0u8..16, 0u8..32).prop_map(|(back, off)| Target::Wrap { back, off }),
     ];
-    (prop::sample::select(kinds), prop::sample::select(vec![1u8, 2, 4, 8]), target, prop_oneof![1 => Just(0i16), 2 => any::<i16>(), 1 => -64i16..64], crate::gen::interesting_u64(), prop_oneof![3 => Just(0u8), 1 => 1u8..8], prop_oneof![1 => Just(vec![]).boxed(), 1 => prop::collection::vec((any::<u8>(), any::<u8>()), 1..5).boxed()], prop_oneof![3 => Just(0u8), 1 => (1u8..7, 0u8..16).prop_map(|(m, r)| m | r << 4)])
-        .prop_map(|(kind, width, target, split, val, prime, warm, rebase)| Probe { kind, width, target, split, val, prime, warm, rebase })
+    (prop::sample::select(kinds), prop::sample::select(vec![1u8, 2, 4, 8]), target, prop_oneof![1 => Just(0i16), 2 => any::<i16>(), 1 => -64i16..64], crate::gen::interesting_u64(), prop_oneof![3 => Just(0u8), 1 => 1u8..8], prop_oneof![1 => Just(vec![]).boxed(), 1 => prop::collection::vec((any::<u8>(), any::<u8>()), 1..5).boxed()], prop_oneof![3 => Just(0u8), 1 => (1u8..7, 0u8..16).prop_map(|(m, r)| m | r << 4)], prop_oneof![7 => Just(0i8), 1 => prop::sample::select(vec![8i8, 64, -8, -64, 127, -128, 1, 16])])
+        .prop_map(|(kind, width, target, split, val, prime, warm, rebase, move_r10)| Probe { kind, width, target, split, val, prime, warm, rebase, move_r10 })
 }
 
 pub fn case_strategy(with_ranges: bool, cranelift: bool) -> impl Strategy<Value = (Layout, Probe)> {
@@ -411,6 +415,9 @@ fn build(p: &Probe, r: &Regions, ld_base: u64) -> Option<Built> {
                     prime = Some((is_store, pw));
                 }
             }
+            if p.move_r10 != 0 {
+                out.push(Insn::new(alu_opc(true, ALU_ADD, false), 10, 0, 0, p.move_r10 as i32));
+            }
             emit_access(&mut out, p, w, off);
         }
     }
@@ -510,7 +517,21 @@ unsafe fn child_probe(mem: &Mem, l: &Layout, p: &Probe, eng: Eng) {
         1 => crate::runner::VmKind::Raw,
         _ => crate::runner::VmKind::NoData,
     };
-    let mut vm = match crate::vmx::AnyVm::new(kind, Some(prog)) {
+    let writes_r10 = crate::isa::decode_prog(prog).iter().any(|x| x.dst == 10 && x.opc == alu_opc(true, ALU_ADD, false));
+    let made = if writes_r10 {
+        // only a custom verifier lets a program write r10
+        fn accept_all(_prog: &[u8]) -> Result<(), std::io::Error> {
+            Ok(())
+        }
+        crate::vmx::AnyVm::new(kind, None).and_then(|mut vm| {
+            vm.set_verifier(accept_all)?;
+            vm.set_program(prog, (0, 8))?;
+            Ok(vm)
+        })
+    } else {
+        crate::vmx::AnyVm::new(kind, Some(prog))
+    };
+    let mut vm = match made {
         Ok(vm) => vm,
         Err(e) => {
             set_fail(sh, &format!("probe program rejected by the verifier: {e}"));
@@ -766,7 +787,7 @@ fn case_json(l: &Layout, p: &Probe) -> Value {
     json!({
         "layout": {"pkt_len": l.pkt_len, "pkt_at_end": l.pkt_at_end, "mbuff_len": l.mbuff_len, "mbuff_at_end": l.mbuff_at_end, "ranges": l.ranges, "fill": l.fill, "mbuff_gap": l.mbuff_gap, "cover": l.cover, "vm": l.vm, "enclose": l.enclose},
         "probe": {
-            "kind": format!("{:?}", p.kind), "width": p.width, "split": p.split, "val": p.val.to_string(), "prime": p.prime, "rebase": p.rebase, "warm": p.warm.iter().map(|(a, b)| json!([a, b])).collect::<Vec<_>>(),
+            "kind": format!("{:?}", p.kind), "width": p.width, "split": p.split, "val": p.val.to_string(), "prime": p.prime, "rebase": p.rebase, "move_r10": p.move_r10, "warm": p.warm.iter().map(|(a, b)| json!([a, b])).collect::<Vec<_>>(),
             "target": match &p.target {
                 Target::Edge { region, end, delta } => json!({"edge": [region, end, delta]}),
                 Target::Stack { delta } => json!({"stack": delta}),
@@ -811,7 +832,7 @@ fn case_from_json(v: &Value) -> Option<(Layout, Probe)> {
         let w = t["wrap"].as_array()?;
         Target::Wrap { back: w[0].as_u64()? as u8, off: w[1].as_u64()? as u8 }
     };
-    Some((l, Probe { kind, width: pj["width"].as_u64()? as u8, target, split: pj["split"].as_i64()? as i16, val: pj["val"].as_str()?.parse().ok()?, prime: pj["prime"].as_u64().unwrap_or(0) as u8, rebase: pj["rebase"].as_u64().unwrap_or(0) as u8, warm: pj["warm"].as_array().map(|a| a.iter().map(|x| (x[0].as_u64().unwrap_or(0) as u8, x[1].as_u64().unwrap_or(0) as u8)).collect()).unwrap_or_default() }))
+    Some((l, Probe { kind, width: pj["width"].as_u64()? as u8, target, split: pj["split"].as_i64()? as i16, val: pj["val"].as_str()?.parse().ok()?, prime: pj["prime"].as_u64().unwrap_or(0) as u8, rebase: pj["rebase"].as_u64().unwrap_or(0) as u8, move_r10: pj["move_r10"].as_i64().unwrap_or(0) as i8, warm: pj["warm"].as_array().map(|a| a.iter().map(|x| (x[0].as_u64().unwrap_or(0) as u8, x[1].as_u64().unwrap_or(0) as u8)).collect()).unwrap_or_default() }))
 }
 
 fn account(st: &mut Stats, l: &Layout, p: &Probe, allowed: bool, near: bool, v: &Verdict) {
@@ -849,6 +870,9 @@ fn account(st: &mut Stats, l: &Layout, p: &Probe, allowed: bool, near: bool, v: 
     }
     if l.cover & 1 != 0 && l.ranges.len() >= 2 {
         st.class(&format!("covering-range-over->=2-ranges:registered-{}:{}", ["last", "first", "in-reverse", "second"][((l.cover >> 5) & 3) as usize], if allowed { "allowed" } else { "refused" }));
+    }
+    if p.move_r10 != 0 && p.rebase & 15 == 0 && !matches!(p.kind, Kind2::LdAbs | Kind2::LdInd) && !matches!(p.target, Target::Wrap { .. }) {
+        st.class(if allowed { "r10-moved-before-the-access:allowed" } else { "r10-moved-before-the-access:refused" });
     }
     if p.rebase & 15 != 0 && !matches!(p.kind, Kind2::LdAbs | Kind2::LdInd) && !matches!(p.target, Target::Stack { .. } | Target::Wrap { .. }) {
         st.class(&format!("base-register-redefined-by-{}:{}", ["", "lddw", "mov", "add", "stack-reload", "helper-call", "ldabs"][(p.rebase & 15) as usize % 7], if allowed { "allowed" } else { "refused" }));
@@ -902,7 +926,7 @@ fn drive(ctx: &Ctx, eng: Eng, quick: u64, thorough: u64) {
                                 if n % ctx.nworkers as u64 != ctx.worker as u64 {
                                     continue;
                                 }
-                                let p = Probe { kind, width, target: Target::Edge { region, end, delta }, split: (n % 7) as i16 * 3 - 9, val: 0x0102_0304_0506_0708u64.wrapping_mul(n | 1), prime: if n % 3 == 0 { (n % 8) as u8 } else { 0 }, warm: vec![], rebase: 0 };
+                                let p = Probe { kind, width, target: Target::Edge { region, end, delta }, split: (n % 7) as i16 * 3 - 9, val: 0x0102_0304_0506_0708u64.wrapping_mul(n | 1), prime: if n % 3 == 0 { (n % 8) as u8 } else { 0 }, warm: vec![], rebase: 0, move_r10: 0 };
                                 let (v, allowed, near) = run_probe(&mem.borrow(), &l, &p, eng);
                                 count += 1;
                                 let fail = v.is_fail();
@@ -927,7 +951,7 @@ fn drive(ctx: &Ctx, eng: Eng, quick: u64, thorough: u64) {
                         if n % ctx.nworkers as u64 != ctx.worker as u64 || (delta > -500 && delta < -12 && n % 8 != 0) {
                             continue;
                         }
-                        let p = Probe { kind, width, target: Target::Stack { delta }, split: (n % 5) as i16 * 4 - 8, val: n, prime: 0, warm: vec![], rebase: 0 };
+                        let p = Probe { kind, width, target: Target::Stack { delta }, split: (n % 5) as i16 * 4 - 8, val: n, prime: 0, warm: vec![], rebase: 0, move_r10: 0 };
                         let (v, allowed, near) = run_probe(&mem.borrow(), &l, &p, eng);
                         count += 1;
                         let fail = v.is_fail();
